@@ -4,7 +4,7 @@ Require Import MV.Base.Prelude MV.Base.CInt MV.Base.Index MV.Base.BorderSpec.
 Require Import MV.Gen.Scalar_gen MV.Model.Filter MV.Model.Morph.
 Require Import MV.Proof.BorderNearest MV.Proof.ScalarSat MV.Proof.MorphProof.
 Require Import MV.Model.MorphFast MV.Proof.MorphLaws MV.Proof.MorphFastProof MV.Gen.FastPath_gen MV.Proof.FastPathTie.
-Require Import MV.Gen.Offsets_gen MV.Model.OffsetsTable MV.Proof.OffsetsAxis MV.Proof.OffsetsProof.
+Require Import MV.Gen.Offsets_gen MV.Model.OffsetsTable MV.Proof.OffsetsAxis MV.Proof.OffsetsProof MV.Proof.ConvProof MV.Proof.OffsetsRetrieve.
 
 Theorem C01_erode_sub_saturates : forall t a b,
   wf_ity t -> in_range t a -> 0 <= b <= tmax t -> b <> tmin t -> erode_sub t a b = sat t (a - b).
@@ -78,3 +78,16 @@ Proof.
   intros mode axes pos coords Hm Hax Hp Hl. rewrite entry_char, entry_sum_is_address by auto.
   destruct (mapped mode axes pos coords); reflexivity.
 Qed.
+
+(* ... which closes the loop with the LOGICAL retrieve through which erode_generic / dilate_generic (and every other kernel
+   model) read their samples: for a C-ordered array, the logical retrieve at pixel p and filter coordinate k is exactly the
+   pointer access  element[ravel p + table entry]  of the real iterator, and it reports "outside" exactly when that entry is
+   the flag *)
+Theorem C01_logical_retrieve_is_the_table_access : forall mode f fsh p k,
+  valid_mode mode -> ConvProof.shape_ok (shape f) -> size (shape f) < border_flag_value -> Forall (fun n => 1 <= n) fsh ->
+  length fsh = length (shape f) -> in_shape (shape f) p -> in_shape fsh k ->
+  let axes := rev (be_axes (shape f) fsh) in
+  let e := entry mode axes (rev p) (rev k) 0 in
+  retrieve mode f p (psub k (centre fsh))
+  = if e =? border_flag_value then None else Some (nthZ 0 (data f) (ravel (shape f) p + e)).
+Proof. exact retrieve_is_table_access. Qed.
